@@ -20,7 +20,7 @@ func checkC17(c *Ctx) {
 	r.Explanation = "Decides the plumbing between extension hooks and the code that honours them: (D1) the synchronous EventBroker.Emit calls listeners in slice order inside one loop, returns the first non-nil result from the edge on which it was non-nil without calling another listener, and otherwise returns nil; (D2) in the MAIL and RCPT handlers, with a = φ(Defer, result.Action): the a==Deny edge replies with the hook's ErrorCode/ErrorMsg and returns without touching state or recipients, the domain-policy call is control-dependent on a==Defer, and the accepting step is reachable with a!=Defer without the policy call (C05 decides the converse); (D3) in Deliver the store-policy filter runs only on the edge where the before-store hook returned nil, and destinations/metadata come from the post-hook message (C01/ONCE, C01/META); (D4) every Lua CallByParam has Protect: true, the before-handlers return nil on its error edge, and the unwrap helpers never return a non-nil value together with an error; (D5) pooled Lua states are exclusive: pool fields are touched only under the pool mutex, getState shrinks the pool before handing out the popped state, and each user defers putState exactly once after obtaining a state."
 	r.NotDecided = []string{"Lua semantics and the handler script grammar", "cross-session state inside Lua globals", "a state that is not returned on the getInbucket error path (a leak, not a corruption)"}
 	r.Assumptions = []string{"gopher-lua: CallByParam with Protect=true returns Lua errors as Go errors instead of panicking"}
-	r.Rule("C17/FIRST", "EventBroker.Emit: one listener call site, in one loop over listenerFuncs; a non-nil result is returned on its non-nil edge with no further listener call; the fall-through returns nil")
+	r.Rule("C17/FIRST", "EventBroker.Emit: one listener call site, in one loop over listenerFuncs; a non-nil result is returned on its non-nil edge with no further listener call; the fall-through returns nil; the called element is read under the broker's lock unless nothing edits the list's backing array in place")
 	r.Rule("C17/MAP", "MAIL/RCPT: the a==Deny edge sends a reply built from ErrorCode and ErrorMsg of the hook result and returns without state/recipient changes; the policy call is dominated by a==Defer; the accepting step is reachable on a!=Defer without the policy call")
 	r.Rule("C17/REPLACE", "Deliver: Recipient.ShouldStore is consulted only on the edge where BeforeMessageStored returned nil")
 	r.Rule("C17/LUA/protect", "every (*LState).CallByParam passes lua.P{Protect: true}; before-handlers return nil on its error edge; unwrap* never return (non-nil, error)")
@@ -211,6 +211,13 @@ func (c *Ctx) c17First() {
 				probs = append(probs, "on the non-nil edge Emit does not return that listener's result")
 			}
 		}
+		// the list cannot shift under the walk: every element is read with the broker's lock
+		// held, unless nothing in the module edits the list's backing array in place
+		if len(calls) == 1 {
+			if why := c.c17StableList(fn, calls[0]); why != "" {
+				probs = append(probs, why)
+			}
+		}
 		if seen[key] && len(probs) == 0 {
 			continue
 		}
@@ -222,6 +229,103 @@ func (c *Ctx) c17First() {
 		}
 	}
 	r.Floor("C17/FIRST", "instantiations of EventBroker.Emit", n, 1)
+}
+
+// c17StableList: in Emit, the element of the listener slice that is called is read while the
+// broker's lock is held (acquired on every path to the read, not released by an explicit call
+// before it), or no function edits that slice's backing array in place. Returns "" or the reason.
+func (c *Ctx) c17StableList(fn *ssa.Function, call *ssa.Call) string {
+	p := c.P
+	// the element access
+	var ia *ssa.IndexAddr
+	v := call.Call.Value
+	for i := 0; i < 6 && ia == nil; i++ {
+		switch x := v.(type) {
+		case *ssa.UnOp:
+			v = x.X
+		case *ssa.FieldAddr:
+			v = x.X
+		case *ssa.Field:
+			v = x.X
+		case *ssa.Alloc:
+			found := false
+			if x.Referrers() != nil {
+				for _, ref := range *x.Referrers() {
+					if st, ok := ref.(*ssa.Store); ok && st.Addr == ssa.Value(x) {
+						v, found = st.Val, true
+					}
+				}
+			}
+			if !found {
+				return ""
+			}
+		case *ssa.IndexAddr:
+			ia = x
+		default:
+			return ""
+		}
+	}
+	if ia == nil {
+		return ""
+	}
+	f := eng.LoadedField(ia.X)
+	if f == nil {
+		return ""
+	}
+	lockName := func(in ssa.Instruction, names ...string) bool {
+		ci, ok := in.(*ssa.Call)
+		if !ok {
+			return false
+		}
+		n := eng.CalleeName(ci.Common())
+		for _, w := range names {
+			if n == w {
+				return true
+			}
+		}
+		return false
+	}
+	isAcquire := func(in ssa.Instruction) bool {
+		return lockName(in, "(*sync.RWMutex).RLock", "(*sync.RWMutex).Lock", "(*sync.Mutex).Lock")
+	}
+	isRelease := func(in ssa.Instruction) bool {
+		return lockName(in, "(*sync.RWMutex).RUnlock", "(*sync.RWMutex).Unlock", "(*sync.Mutex).Unlock")
+	}
+	atAccess := func(in ssa.Instruction) bool { return in == ssa.Instruction(ia) }
+	held := (&eng.Search{Target: atAccess, Avoid: isAcquire}).FromEntry(fn) == nil
+	eng.EachInstr(fn, func(in ssa.Instruction) {
+		if in.Parent() == fn && isRelease(in) && (&eng.Search{Target: atAccess, Avoid: isAcquire}).After(in) != nil {
+			held = false
+		}
+	})
+	if held {
+		return ""
+	}
+	// in-place editors of the same field: append(load(f)[:i], …) or a store through load(f)[i]
+	var editors []string
+	for _, g := range p.Funcs {
+		g := g
+		eng.EachInstr(g, func(in ssa.Instruction) {
+			switch x := in.(type) {
+			case *ssa.Call:
+				if eng.CalleeName(x.Common()) == "builtin.append" && len(x.Call.Args) > 0 {
+					if sl, ok := x.Call.Args[0].(*ssa.Slice); ok && eng.SameField(eng.LoadedField(sl.X), f) {
+						editors = append(editors, p.InstrPos(in))
+					}
+				}
+			case *ssa.Store:
+				if ia2, ok := x.Addr.(*ssa.IndexAddr); ok && eng.SameField(eng.LoadedField(ia2.X), f) {
+					editors = append(editors, p.InstrPos(in))
+				}
+			}
+		})
+	}
+	if len(editors) == 0 {
+		return ""
+	}
+	sort.Strings(editors)
+	editors = dedupStrings(editors)
+	return "the listeners are called from a list read without the broker's lock held (the lock is released, or never taken, before the element at " + p.InstrPos(ia) + " is read) while " + strings.Join(editors, ", ") + " edits that list's backing array in place: a listener removed or re-registered during an Emit shifts the later hooks under the walk, so a hook is skipped and a later one answers in its place"
 }
 
 func (c *Ctx) c17Map() {
